@@ -71,6 +71,7 @@ Fixpoint rle_loop (fuel : nat) (src : list N) (room : nat) : list N :=
 
 Definition rle_decompress (data : list N) (size : N) : option (list N) :=
   if Nat.ltb (length data) 4 then None
+  else if lenN (skipn 4 data) * 128 <? size then None      (* a declared size the stream cannot produce (repair 6d20f91) *)
   else Some (rle_loop (S (length data)) (skipn 4 data) (N.to_nat size)).
 
 (* ---- BSD0 control loop --------------------------------------------------------------- *)
